@@ -16,6 +16,15 @@ def ofFn : (m : Nat) → (f : Nat → Bool) → Nat
   | 0, _ => 0
   | m + 1, f => ofFn m f ||| (if f m then 2 ^ m else 0)
 
+/-- `int_to_bitarray(i, n)` (`spf2.py:82-97`): `int(i).to_bytes((n+7)//8, 'little')` (`OverflowError` = `none` when `i` does not
+fit into `⌈n/8⌉` bytes), `np.unpackbits(…, bitorder='little')`, first `n` bits.  For `2^n ≤ i < 256^⌈n/8⌉` the high bits are
+silently dropped. -/
+def intToBitarray (i n : Nat) : Option (List Bool) :=
+  if 256 ^ ((n + 7) / 8) ≤ i then none else some ((List.range n).map i.testBit)
+
+/-- `bitarray_to_int(b)` (`spf2.py:100-112`): `np.packbits(b, bitorder='little')` read as a little-endian integer -/
+def bitarrayToInt (b : List Bool) : Nat := ofFn b.length fun j => b.getD j false
+
 /-- single bit `b` at position `i` (assignment `v[i] = b` into a zero array) -/
 def bit (i : Nat) (b : Bool) : Nat := if b then 2 ^ i else 0
 
